@@ -34,6 +34,16 @@ WHAT = {
  'S-C18-1': 'null_move recomputes only the pins (new helper), leaving checkers untouched',
  'S-C19-1': 'stored hash narrowed to u32',
  'S-C20-1': '`^=` with a borrowed right-hand side computes `|`',
+ 'S-C04-2': 'in-place make_move merges the knight-promotion arm into the generic one: an under-promotion to a knight that gives check leaves checkers empty',
+ 'S-C07-2': 'Square::from_str evaluates `&s[1..]` eagerly: a multi-byte first character (FEN en-passant field) panics',
+ 'S-C09-2': 'castling rook relocated by one xor of `start ^ end`: the hash toggles only the lowest square\'s key',
+ 'S-C11-2': 'fifty-move count computed as `moves.len() - index of the last irreversible action`: draw offers count as half-moves',
+ 'S-C15-2': 'magic generator validates candidates on all but the last occupancy (`0..last`): two multipliers collide on the fully blocked occupancy',
+ 'S-C16-2': 'between-table generator drops the "endpoints share a diagonal" test: 520 non-aligned pairs get a spurious square',
+ 'S-C17-2': 'en-passant loop keeps a hoisted occupancy and never puts the capturing pawn back: the second capturer is tested on a stale board (a->h order dependence)',
+ 'S-C18-2': 'null_move returns early (before remove_ep) when the passer has no slider: the en-passant square survives',
+ 'S-C19-2': 'replace_if skips the store when the payload is equal (`e.entry != entry && replace(..)`): the hash tag is not updated',
+ 'S-C20-2': 'popcnt replaced by a SWAR count with a final mask of 0x3f: the full board counts 0',
 }
 
 
